@@ -1,2 +1,65 @@
-From SV Require Import Group.
-Theorem C10_placeholder : True. Proof. exact I. Qed.
+(* C10 - Ungrouping grouped notes restores the original note stream.  Statements only. *)
+From Coq Require Import List Arith ZArith NArith Bool Sorting.Sorted.
+From SV Require Import Sx Str Notes Group Proofs.GroupRefine Proofs.C09 Proofs.C10.
+Import ListNotations.
+Local Open Scope nat_scope.
+
+(* Domain: a stream strictly sorted by position (so single position per note), one player p0,
+   positive denominators, non-negative columns, tails without keysound index. *)
+
+(* with orphans kept, any ungroup policy: exactly the included notes, in the original order *)
+Theorem C10_roundtrip_keep : forall p0 types m pol ns g,
+  (m = KeepSeparate \/ m = JoinAll) ->
+  StronglySorted lt ns -> Forall (wf p0) ns ->
+  group_notes types m true Keep Keep ns = GOk g ->
+  ungroup_notes pol g = UOk (filter (included types) ns).
+Proof.
+  intros p0 types m pol ns g Hm Hs Hwf Hg.
+  rewrite (roundtrip_join p0 types m Keep Keep pol ns g Hm Hs Hwf Hg). rewrite kept_keep. reflexivity.
+Qed.
+Print Assumptions C10_roundtrip_keep.
+
+(* with any orphan policies: exactly the dropped orphans are missing, nothing else, order kept;
+   [kept] removes a note iff it is neither a matched tail nor emitted by the documented rule *)
+Theorem C10_dropped_exactly : forall p0 types m ph pt pol ns g,
+  (m = KeepSeparate \/ m = JoinAll) ->
+  StronglySorted lt ns -> Forall (wf p0) ns ->
+  group_notes types m true ph pt ns = GOk g ->
+  ungroup_notes pol g = UOk (kept ph pt [] (filter (included types) ns)).
+Proof. exact roundtrip_join. Qed.
+Print Assumptions C10_dropped_exactly.
+
+Theorem C10_roundtrip_nojoin : forall types m ph pt pol ns g,
+  (m = KeepSeparate \/ m = JoinAll) ->
+  group_notes types m false ph pt ns = GOk g -> ungroup_notes pol g = UOk (filter (included types) ns).
+Proof. exact roundtrip_nojoin. Qed.
+Print Assumptions C10_roundtrip_nojoin.
+
+(* the general invariant behind both: from any reachable point of the stream *)
+Theorem C10_invariant : forall p0 pol ph pt ns rp S P' acc,
+  StronglySorted lt ns -> Forall (wf p0) ns -> Forall (wf p0) rp -> J S P' rp ns ->
+  ungroup_go pol (doc_items ph pt rp ns) (S ++ P') acc = UOk (rev acc ++ S ++ kept ph pt rp ns).
+Proof. exact ungroup_doc_items. Qed.
+Print Assumptions C10_invariant.
+
+(* a note inside a joined hold on its column: raise / keep / drop *)
+Definition h0 : note := {| nb_n := 0; nb_d := 1; ncol := 0; ntype := 50%N; nplayer := 0; nks := Some 5%Z |}.
+Definition mine : note := {| nb_n := 2; nb_d := 1; ncol := 0; ntype := 77%N; nplayer := 0; nks := None |}.
+Definition tap1 : note := {| nb_n := 3; nb_d := 1; ncol := 1; ntype := 49%N; nplayer := 0; nks := None |}.
+Definition t0 : note := {| nb_n := 4; nb_d := 1; ncol := 0; ntype := 51%N; nplayer := 0; nks := None |}.
+Example C10_inside_hold :
+  ungroup_notes Raise [[Joined h0 (4, 1)%Z]; [Plain mine]; [Plain tap1]] = UErrOrphan mine /\
+  ungroup_notes Keep [[Joined h0 (4, 1)%Z]; [Plain mine]; [Plain tap1]] = UOk [h0; mine; tap1; t0] /\
+  ungroup_notes Drop [[Joined h0 (4, 1)%Z]; [Plain mine]; [Plain tap1]] = UOk [h0; tap1; t0].
+Proof. vm_compute. repeat split; reflexivity. Qed.
+
+(* non-vacuity of the round-trip hypotheses *)
+Example C10_example_hypotheses :
+  StronglySorted lt [h0; mine; tap1; t0] /\ Forall (wf 0%Z) [h0; mine; tap1; t0] /\
+  exists g, group_notes [49;50;51;77]%N JoinAll true Keep Keep [h0; mine; tap1; t0] = GOk g.
+Proof.
+  split; [|split].
+  - repeat constructor.
+  - repeat constructor; simpl; try discriminate; try reflexivity; intros; try discriminate; reflexivity.
+  - eexists. vm_compute. reflexivity.
+Qed.
